@@ -24,6 +24,7 @@ import Verif.Drv.TokenRules
 import Verif.Drv.ScanRules
 import Verif.Drv.InlineLoop
 import Verif.Drv.RegenLeaf
+import Verif.Drv.ListStarts
 
 /-- model name → request handler (one request line in, one answer line out). -/
 def models : List (String × (String → String)) :=
@@ -64,7 +65,8 @@ def models : List (String × (String → String)) :=
    ("tokenrules", Verif.Drv.TokenRules.step),
    ("scanrules", Verif.Drv.ScanRules.step),
    ("inlineloop", Verif.Drv.InlineLoop.step),
-   ("regenleaf", Verif.Drv.RegenLeaf.step)]
+   ("regenleaf", Verif.Drv.RegenLeaf.step),
+   ("liststarts", Verif.Drv.ListStarts.step)]
 
 partial def loop (h : IO.FS.Stream) (out : IO.FS.Stream) (f : String → String) : IO Unit := do
   let line ← h.getLine
